@@ -106,6 +106,8 @@ func faultHistOpt() gen.HistOpt {
 	o.MaxUnits, o.MaxItems, o.MaxRowsEv, o.MaxRows, o.MaxCols, o.MaxTables = 5, 2, 2, 2, 3, 2
 	o.BigBase = false
 	o.Rotations = 1
+	o.Scale = false
+	o.ScaleRows = true
 	o.Col = gen.ColumnOpt{Only: []byte{refenc.TLong, refenc.TVarchar, refenc.TTiny, refenc.TNewDecimal}, NoHeavy: true}
 	return o
 }
@@ -143,7 +145,7 @@ func TestC04(t *testing.T) {
 					for i := 0; i <= nsteps; i++ {
 						points = append(points, i)
 					}
-				case k == "cancel_in" || k == "handler_err" || k == "handler_err_cancel":
+				case k == "cancel_in" || k == "cancel_busy" || k == "handler_err" || k == "handler_err_cancel":
 					for i := 1; i <= ntx; i++ {
 						points = append(points, i)
 					}
